@@ -165,6 +165,7 @@ def live_shard(sh):
     # go on serving - a worker that dies and is replaced shows up as a new pid.
     import socket
     import struct
+    import time
     from vlib import e4_live as e4
     run = Run(PROP, sh.get("tier", "quick"), sh["seed"], "fault_enumeration", RULE)
     wc = sh["class"]
@@ -180,6 +181,58 @@ def live_shard(sh):
         if not w0 or not srv.wait_listening(5):
             run.inconclusive_because("live server (%s) did not boot" % wc)
             return run
+        # keep-alive histories: one complete request is served, then the client sends part of another request (or nothing)
+        # and goes quiet past the keep-alive time.  The unfinished request was never accepted: the application must have
+        # been called exactly once, and after the first response the client may see nothing or one 4xx/5xx reply.
+        import threading
+        holds = []
+
+        def ka_hold(k, prefix, body):
+            rec = {"k": k, "prefix": prefix, "first": None, "after": b"", "closed": False, "err": None}
+            holds.append(rec)
+            try:
+                c = e4.connect(srv.addr, 5)
+            except OSError as e:
+                rec["err"] = repr(e)
+                return
+            try:
+                uri = "/kahold/%d" % k
+                if body:
+                    raw = ("POST %s HTTP/1.1\r\nHost: h\r\nContent-Length: %d\r\n\r\n" % (uri, len(body))).encode() + body
+                else:
+                    raw = ("GET %s HTTP/1.1\r\nHost: h\r\n\r\n" % uri).encode()
+                r1 = e4.request(srv.addr, raw=raw, sock=c, close=False, timeout=8)
+                rec["first"] = r1["outcome"]
+                if r1["outcome"] != "ok":
+                    return
+                if prefix:
+                    c.sendall(prefix)
+                c.settimeout(0.5)
+                t0 = time.monotonic()
+                while time.monotonic() - t0 < settings["keepalive"] * 2 + 1.5:
+                    try:
+                        d = c.recv(65536)
+                    except socket.timeout:
+                        continue
+                    except OSError:
+                        rec["closed"] = True
+                        break
+                    if not d:
+                        rec["closed"] = True
+                        break
+                    rec["after"] += d
+            except OSError as e:
+                rec["err"] = repr(e)
+            finally:
+                c.close()
+
+        nxt = b"POST /kahold-next HTTP/1.1\r\nHost: h\r\nContent-Length: 5\r\nX-Long: " + b"v" * 40 + b"\r\n\r\n"
+        hold_threads = []
+        for k in range(4 if sh.get("tier") == "quick" else 16):
+            cut = rng.choice([0, 3, rng.randint(1, len(nxt) - 1), len(nxt) - 2, nxt.index(b"X-Long") + 9])   # always inside the head
+            t = threading.Thread(target=ka_hold, args=(k, nxt[:cut], rng.choice([b"", b"payload"])), daemon=True)
+            t.start()
+            hold_threads.append(t)
         fx = [d for _, d in gen.fixture_streams(common.REPO) if len(d) < 2000]
         for k in range(sh["n"]):
             if run.enough():
@@ -230,6 +283,24 @@ def live_shard(sh):
         # application calls: every target the application saw must belong to a request the strict reading does not reject
         seen = [m.split(" ", 1)[1] for _, _, m in srv.phases() if m.startswith("appcall ")]
         run.count("live_app_calls", len(seen))
+        for t in hold_threads:
+            t.join(20)
+        for rec in holds:
+            if rec["first"] != "ok":
+                continue
+            calls = seen.count("/kahold/%d" % rec["k"])
+            run.count("live_keepalive_hold_histories")
+            run.case(("live-kahold", wc, len(rec["prefix"])))
+            wit = {"live": wc, "kahold": {"prefix": rec["prefix"].hex(), "after": rec["after"][:300].hex()}}
+            if calls != 1 or "/kahold-next" in seen:
+                run.violation("live/application-called-for-unfinished-request", "%s: one complete request, then %d bytes of another "
+                              "and silence: the application was called %d times for the first request%s" % (
+                                  wc, len(rec["prefix"]), calls, " and once for the unfinished one" if "/kahold-next" in seen else ""), wit)
+            if rec["after"]:
+                st = e4.status_of(rec["after"])
+                if not (st and 400 <= st < 600 and rec["after"].count(b"HTTP/1.") == 1):
+                    run.violation("live/reply-to-unfinished-request", "%s: after the first response and %d bytes of an unfinished "
+                                  "request the client received %r" % (wc, len(rec["prefix"]), rec["after"][:120]), wit)
     finally:
         srv.cleanup()
     return run
@@ -349,7 +420,7 @@ def main(tier, seed):
     shards += [{"kind": "random", "n": 800 if q else 15000, "sub": i, "seed": seed, "tier": tier} for i in range(10 if q else 32)]
     shards += [{"kind": "live", "class": c, "n": 150 if q else 1500, "seed": seed, "tier": tier}
                for c in ("sync", "gthread", "gevent", "eventlet")]
-    run.require("live_inputs", "live_liveness_probes", "live_mode/rst")
+    run.require("live_inputs", "live_liveness_probes", "live_mode/rst", "live_keepalive_hold_histories")
     run.assumptions = [
         "live sub-tier: 150 hostile / truncated / reset (SO_LINGER 0) connections per worker class against real servers over TCP; judged: "
         "the server keeps serving and no worker pid changes",
